@@ -29,6 +29,11 @@ TRIAGED = {
     ("db_map_u64_with_params", "panic"): "infeasible: follows a successful insert into the same registry",
     ("db_map_vu64_with_params", "panic"): "infeasible: follows a successful insert into the same registry",
 }
+# additional entries that only exist under the test-only `abyssiniandb_debug` feature (checked narrowing conversions)
+TRIAGED_DEBUG_FEATURE = {
+    ("read_vu64_u32", "panic"): "abyssiniandb_debug (test configuration): checked u64 -> u32 narrowing of a decoded field",
+    ("sub", "panic"): "abyssiniandb_debug (test configuration): checked narrowing of an offset difference",
+}
 KEYOFF = "abyssiniandb::filedb::inner::semtype::Offset<abyssiniandb::filedb::inner::semtype::Piece<abyssiniandb::filedb::inner::semtype::Key>>"
 
 
@@ -60,6 +65,9 @@ def check(ctx):
     closure = reachable_fns(prog, roots, crates=("abyssiniandb",))
     found = {}
     n_div = 0
+    triaged = dict(TRIAGED)
+    if "abyssiniandb_debug" in prog.features.get("abyssiniandb", []):
+        triaged.update(TRIAGED_DEBUG_FEATURE)
     for fn in closure.values():
         for b, t in fn.calls():
             if t["target"] is not None:
@@ -67,13 +75,16 @@ def check(ctx):
             n_div += 1
             m = outer_macro(t)
             if m in ABORT_MACROS:
-                found.setdefault((fn.name, m), []).append((fn, b))
+                owner = fn
+                while owner.kind == "Closure" and owner.parent in prog.fns:
+                    owner = prog.fns[owner.parent]
+                found.setdefault((owner.name, m), []).append((fn, b))
     ctx.floor("abort-inventory", "diverging call sites examined", n_div, 40)
     for (name, m), sites in sorted(found.items()):
         fn, b = sites[0]
         ctx.touch(fn)
-        if (name, m) in TRIAGED:
-            ctx.ok("abort", "%s:%s" % (name, m), "triaged: " + TRIAGED[(name, m)])
+        if (name, m) in triaged:
+            ctx.ok("abort", "%s:%s" % (name, m), "triaged: " + triaged[(name, m)])
         else:
             ctx.fail("abort", "%s:%s" % (name, m),
                      "%s contains a %s!() give-up point reachable from the data-path API: the operation aborts instead of completing"
